@@ -116,8 +116,8 @@ MANIFEST_TEXT = {
         "level_note": "Trusted: the reference model (written from RFC 4918/3986 and the property text), net/http's request parser, tmpfs. Names are sampled from alphabets; requests in flight one at a time.",
     },
     "C02": {
-        "technique": "deterministic simulation with fault injection: request-body stream faults at seeded and at every byte offset, context cancellation, injected disk errors at seeded system-call ordinals, and refusal-biased histories; on-disk snapshot before/after every request",
-        "level_text": "Fault enumeration: for small uploads every cut offset x error kind is executed (thorough and, in a share of runs, quick); larger uploads, disk-call ordinals and refusal histories are seeded samples. The oracle needs no model: bytes on disk before == after whenever the answer is >= 400.",
+        "technique": "deterministic simulation with fault injection: request-body stream faults at seeded and at every byte offset, context cancellation, injected disk errors at seeded system-call ordinals, and refusal-biased histories; on-disk snapshot before/after every request; overlapped schedules in which an upload stalls in its body stream while other requests are served and then fails",
+        "level_text": "Fault enumeration: for small uploads every cut offset x error kind is executed (thorough and, in a share of runs, quick); larger uploads, disk-call ordinals and refusal histories are seeded samples. The oracle needs no model: bytes on disk before == after whenever the answer is >= 400; for an upload that fails after other requests were served during its stall, before == the tree before it plus what those acknowledged requests were observed to do (snapshots and inode numbers around each of them).",
         "design_ref": "DESIGN.md section 3 / C02",
         "level_note": "Trusted: tmpfs, the disk shim's error shaping. Disk-fault atomicity is demanded of PUT only (old-or-new, no stray names unless a remove call itself failed).",
     },
